@@ -1,7 +1,8 @@
 """Per-property job tables for ./check."""
 
 SETUP_FLAVOURS = ["debug", "release"]
-HOOK_COMMITS = ["7097985"]
+HOOK_COMMITS = ["7097985", "11c3a47", "f0bf0f9"]
+SETUP_EXTRAS = ["roto-bin", "cli-host"]
 NOT_YET = {}
 
 DIFF_ASSUME = [
@@ -105,5 +106,158 @@ PROPS = {
                         "end lines it happened"],
         "min_cases": {"quick": 3000, "thorough": 3000},
         "budget": {"quick": 240, "thorough": 900},
+    },
+    "C06": {
+        "claim": "Totality monitor: five families of hostile inputs (token soup, token/character mutants of valid programs, "
+                 "ill-typed mutants, Unicode programs, module trees) are compiled stage by stage in supervised workers; Rust "
+                 "panics are caught and attributed to a stage, aborts/stack overflows/hangs are seen by the supervisor, both "
+                 "renderings of every error report are produced and every cited span is checked against its file.",
+        "design_ref": "DESIGN.md §4 C06",
+        "level_note": "Sampled inputs with bounded nesting; a death while compilation executes a constant initialiser is script "
+                      "execution (C10), recognised through the const-eval hook, and not counted here.",
+        "technique": "crash/hang supervision of worker processes + panic hook + span/rendering assertions on hostile inputs",
+        "rule": "one input per case from {token soup with grammar-shaped bias, rotogen programs with 1-3 token/character "
+                "mutations or splices, ill-typed AST mutants, hand-shaped Unicode programs, structurally odd snippets, module "
+                "trees of 2-5 files with odd names/empty files}; every case is non-trivial; distinct = distinct input text; "
+                "coverage tags record the input family, the outcome and the first line of each distinct error message",
+        "jobs": [
+            {"family": "totality", "flavour": "release", "cases": {"quick": 120000, "thorough": 3000000}, "case_timeout": 20},
+            {"family": "totality", "flavour": "debug", "cases": {"quick": 20000, "thorough": 300000}, "case_timeout": 30,
+             "args": {"stream": "debug"}},
+            {"family": "corpus", "flavour": "debug", "cases": {"quick": 0, "thorough": 0}, "args": {"prop": "C06"}, "shards": 1},
+        ],
+        "hang_is_violation": True,
+        "ignore_death_phases": ["const-eval"],
+        "assumptions": ["nesting depth of generated inputs is bounded (the property bounds it too)",
+                        "the per-case wall-clock limit (20-30 s against a typical cost of 1-5 ms) stands in for 'terminates'"],
+        "min_tags": 40,
+        "budget": {"quick": 240, "thorough": 1800},
+    },
+    "C07": {
+        "claim": "Each well-typed generated program is turned into mutants that are ill-typed by construction (one documented "
+                 "typing rule broken at one site); the monitor requires every mutant to be rejected with a type error (error "
+                 "kind read through a hook), never compiled, never a panic.",
+        "design_ref": "DESIGN.md §4 C07",
+        "level_note": "Trusted base: the construction argument for each edit kind (harness/rvmon/src/rg/mutate.rs) and the base "
+                      "program compiling. Sampled base programs; every edit kind at every site up to a per-kind bound.",
+        "technique": "mutation of typed ASTs into by-construction ill-typed programs; accept/reject + error-kind monitor",
+        "rule": "base programs from rotogen (scalar, aggregate and effects profiles) that compile; 31 edit kinds (type mismatch "
+                "at 8 kinds of typed position, argument count, unknown name, missing/duplicate/unknown field, non-exhaustive "
+                "match, arm after default, negated unsigned, arithmetic on bool, ordering on char, % on floats, ? outside an "
+                "Option function, redeclaration, accept in fn, return in const, assignment to constant/function, recursive "
+                "types direct/mutual/through Option, constant cycles) applied at every site (<= 3 quick / 6 thorough sites "
+                "per kind and program); non-trivial = at least one mutant was rejected with a type error; evaluations = mutants",
+        "jobs": [
+            {"family": "illtyped", "flavour": "release", "cases": {"quick": 6000, "thorough": 150000}},
+            {"family": "illtyped", "flavour": "debug", "cases": {"quick": 600, "thorough": 15000}, "args": {"stream": "debug"}},
+            {"family": "corpus", "flavour": "debug", "cases": {"quick": 0, "thorough": 0}, "args": {"prop": "C07"}, "shards": 1},
+        ],
+        "assumptions": ["every edit kind yields an ill-typed program under the documented rules (argued per kind in mutate.rs)"],
+        "min_tags": 25,
+        "budget": {"quick": 240, "thorough": 1800},
+    },
+    "C17": {
+        "claim": "Reference-model monitor: every built-in of the default runtime (enumerated at run time from the generated "
+                 "documentation and cross-checked against Runtime::functions()) is called through a compiled Roto wrapper with "
+                 "harness-supplied arguments and compared with the std / inetnum operation its documentation names.",
+        "design_ref": "DESIGN.md §4 C17",
+        "level_note": "Oracles are one-line std/inetnum counterparts (hand-written mask model for Prefix); argument classes the "
+                      "documentation leaves open are tagged unspecified and not judged; a built-in without an oracle shows up "
+                      "as uncovered.",
+        "technique": "reference-model monitoring of built-ins against std/inetnum oracles over edge and random arguments",
+        "rule": "case k runs probe (k mod N) in round (k div N); round 0 replays a curated edge list (43 edge strings x all "
+                "index pairs in {0..len+2}^2 for strings <= 12 bytes, float bit patterns of interest, 7 addresses x every "
+                "valid prefix length, lists of length 0..33), later rounds draw Unicode-aware random strings, derived second "
+                "strings, counts, random float bits and addresses; evaluations = calls made; non-trivial = at least one "
+                "result compared; distinct = (probe, argument batch)",
+        "jobs": [
+            {"family": "builtins", "flavour": "release", "cases": {"quick": 0, "thorough": 0}, "args": {"rounds": 60},
+             "tiers": ["quick"]},
+            {"family": "builtins", "flavour": "release", "cases": {"quick": 0, "thorough": 0}, "args": {"rounds": 1500},
+             "tiers": ["thorough"]},
+            {"family": "builtins", "flavour": "debug", "cases": {"quick": 0, "thorough": 0}, "args": {"rounds": 10, "stream": "debug"}},
+        ],
+        "assumptions": ["Rust's std and the inetnum crate are the documented counterparts of the built-ins"],
+        "min_tags": 100,
+        "min_cases": {"quick": 1000, "thorough": 1000},
+        "budget": {"quick": 240, "thorough": 1500},
+    },
+    "C19": {
+        "claim": "Model-based monitor of the test runner and CLI: for generated packages the harness knows every test's "
+                 "verdict and marker sequence; run_tests / get_tests / TestCase::run and the `roto` binary plus a "
+                 "Runtime::cli() host are executed and their results, marker logs (each test exactly once, same order on "
+                 "rerun, recompilation and in a second process) and exit statuses compared with the model.",
+        "design_ref": "DESIGN.md §4 C19",
+        "level_note": "Only determinism of the order is asserted (the documentation promises no particular order). The CLI is "
+                      "observed through exit status, stdout markers and a marker file.",
+        "technique": "model-based runtime monitoring (verdict + marker-log oracle) in process and through CLI subprocesses",
+        "rule": "generated packages with 1-4 modules, 0-12 test blocks, names colliding with functions, filtermaps, "
+                "constants, records, modules, imports, runtime functions and types; half of the in-process cases add an "
+                "invalid variant that must be rejected; CLI cases run check/test/run on file and directory packages, 35% "
+                "invalid by construction; non-trivial = at least one test (or an invalid package for the CLI)",
+        "jobs": [
+            {"family": "tests-inproc", "flavour": "debug", "cases": {"quick": 6000, "thorough": 120000}},
+            {"family": "tests-cli", "flavour": "debug", "cases": {"quick": 800, "thorough": 12000},
+             "needs": ["roto-bin", "cli-host"], "case_timeout": 60},
+        ],
+        "assumptions": ["the generator's model of accept/reject outcomes and marker sequences is correct"],
+        "min_tags": 40,
+        "budget": {"quick": 300, "thorough": 1800},
+    },
+    "C13": {
+        "claim": "Reference-resolver monitor: for random module trees (in memory and on disk with decoy files) a harness-side "
+                 "resolver implementing only the documented lookup rules says for every generated reference which item tag it "
+                 "must evaluate to or that it must be rejected; valid references are compiled, fetched by module path and "
+                 "called, invalid ones must yield a compile error.",
+        "design_ref": "DESIGN.md §4 C13",
+        "level_note": "References whose resolution the documentation does not order (declaration vs import of the same name in "
+                      "one scope, import cycles, enum-variant imports ...) are never generated. Sampled trees.",
+        "technique": "reference-model monitoring of name resolution via identity tags (in-memory and on-disk module trees)",
+        "rule": "random module trees (<= 7 modules, depth <= 3, the same item names reused in all modules) delivered through "
+                "FileTree::file_spec and through FileTree::read of a temporary directory with decoys; per tree 2n+4 (quick) / "
+                "3n+6 (thorough) valid references over all reference forms and scope depths plus 5/8 must-be-error "
+                "references compiled alone, every function fetched by module path; non-trivial = at least one reference "
+                "checked; distinct = distinct tree + references",
+        "jobs": [
+            {"family": "modules", "flavour": "release", "cases": {"quick": 4000, "thorough": 60000}},
+            {"family": "modules", "flavour": "debug", "cases": {"quick": 600, "thorough": 6000}, "args": {"stream": "debug"}},
+        ],
+        "assumptions": ["the harness resolver implements exactly the documented rules (listed in DESIGN.md §4 C13)"],
+        "min_tags": 50,
+        "budget": {"quick": 300, "thorough": 1500},
+    },
+    "C15": {
+        "claim": "Lock-step model monitor: every operation sequence is executed by roto's List and by a shared-vector model "
+                 "(one Vec per list object + handle->object map); results, tracked-element live counts after every operation "
+                 "and the final ledger must agree, and an operation that makes no progress is reported as a hang. The Rust-API "
+                 "driver enumerates ALL sequences up to a length bound and also runs under Miri (UB / deadlock detection).",
+        "design_ref": "DESIGN.md §4 C15",
+        "level_note": "Exhaustive over sequences of length <= 3 (quick) / <= 4 (thorough, for u64 and the 24-byte tracked type) "
+                      "of a 74-operation alphabet on two handles from three aliasing states; longer sequences, scripts and "
+                      "the Miri runs are sampled. A 5 s wall-clock stall (4-5 orders of magnitude above the cost of an "
+                      "operation) counts as non-termination.",
+        "technique": "lock-step reference-model monitoring (shared-vector model) + drop ledger + Miri on the Rust API",
+        "rule": "list-api: all operation sequences up to the length bound over 74 operations x 2 handle slots x 3 initial "
+                "aliasing states in blocks of 8192, plus seeded random sequences <= 200 operations over 3 slots starting "
+                "next to each growth boundary 0,4,..,256, for element types u64, 24-byte tracked, u8, String, List<u8>, "
+                "zero-sized tracked, Option<u32>; list-script: the same sequences printed as Roto programs (out_* log vs "
+                "model) or routed at random through the Rust API or compiled script functions on the same objects; "
+                "non-trivial = at least one result compared; evaluations = operations executed",
+        "jobs": [
+            {"family": "list-api", "flavour": "release", "cases": {"quick": 0, "thorough": 0}, "case_timeout": 60,
+             "tiers": ["quick"]},
+            {"family": "list-api", "flavour": "release", "cases": {"quick": 0, "thorough": 0}, "case_timeout": 60,
+             "args": {"len-main": 4, "random": 40000}, "tiers": ["thorough"]},
+            {"family": "list-api", "flavour": "debug", "cases": {"quick": 400, "thorough": 2000}, "case_timeout": 120,
+             "args": {"stream": "debug"}},
+            {"family": "list-script", "flavour": "release", "cases": {"quick": 4000, "thorough": 60000}, "case_timeout": 60},
+            {"kind": "miri", "family": "list-miri", "crate": "listmiri", "procs": {"quick": 4, "thorough": 16},
+             "nops": {"quick": 250, "thorough": 500}, "argv": ["u64,trk,u8,string,trkz,list<u8>", "mode=direct"],
+             "budget": {"quick": 400, "thorough": 1500}},
+        ],
+        "hang_is_violation": True,
+        "assumptions": ["the shared-vector model (harness/rvmon/src/fam/listcore.rs) is the documented meaning of List"],
+        "min_tags": 60,
+        "budget": {"quick": 600, "thorough": 2400},
     },
 }
